@@ -176,6 +176,7 @@ def _requests() -> dict[str, Callable[[], dict[str, Any]]]:
 
         return build
 
+    reqs["fn_nested_multi"] = mk(lambda x: userfns.fn_encoder(x) * 1.0)
     reqs["fn_flaky_fail"] = mk_flaky(True)
     reqs["fn_flaky_ok"] = mk_flaky(False)
 
